@@ -153,7 +153,7 @@ func (fe *FnExec) invCases(v Val, t types.Type) []invCase {
 		if !types.Implements(pt, iface) {
 			continue
 		}
-		cond := tAnd(tNot(tEq(rv.T, "0")), tEq(sx("dyn", rv.T), tInt(int64(fe.tid(pt)))))
+		cond := tAnd(sx("<", "HW", rv.T), tEq(sx("dyn", rv.T), tInt(int64(fe.tid(pt)))))
 		out = append(out, invCase{cond, PtrV{Base: rv.T, Prefix: typeName(T), Pointee: T}})
 	}
 	return out
